@@ -374,7 +374,7 @@ impl Property for C14 {
             }
         }
         let n = match tier {
-            Tier::Quick => 96,
+            Tier::Quick => 132,
             Tier::Thorough => 6000,
         };
         let dir = crate::sim::scratch_dir().join("c14real");
@@ -401,10 +401,12 @@ impl Property for C14 {
                 }
             }
             if i % 4 == 1 {
+                // every edge character once at the start and once at the end (enumerated, not sampled)
+                let j = (i / 4) as usize;
                 let h = simcore::mix(base.plan.key ^ 0xED6E);
-                let c = char::from_u32(EDGE[(h % 16) as usize]).unwrap_or('\u{FEFF}');
+                let c = char::from_u32(EDGE[j % 16]).unwrap_or('\u{FEFF}');
                 let mut t = String::from_utf8_lossy(&base.stdin).into_owned();
-                if (h >> 8) % 2 == 0 {
+                if (j / 16) % 2 == 0 {
                     t.insert(0, c);
                 } else {
                     if (h >> 9) % 2 == 0 {
